@@ -2,6 +2,14 @@
    residuals is minimal in its class; exact correspondences are reproduced; an ICP pass does not
    increase the mean squared closest-point distance; the EPnP linear system has the true control
    points in its null space.  Statements only (over R); proofs in Proofs/Align.v.
+   Second round (Proofs/Align2.v .. Align10.v): the recovered transform is THE true one for
+   non-collinear exact correspondences (and is not determined for collinear ones); ICP over the whole
+   loop (every pass, any number of passes, any stepper; ICP.forward never raises, its result applied to
+   the source is the last cloud and is not farther from the target than the initial transform; exact
+   recovery once the matching is the true one, with an explicit basin: displacement below half the
+   target separation); EPnP over all points (null space of the whole M, eigenvalue 0 of M^T M,
+   _compute_scale's scale / sign fix, svdtf returns the true pose); batched inputs (lockstep loop
+   under one stepper); satisfiability examples for every hypothesis set.
 
    torch.linalg.svd is an oracle: every theorem quantifies over ALL answers (U, S, Vh) that satisfy
    its contract [svd_ok M U S Vh]  (U, Vh orthogonal, S sorted >= 0, M = U diag(S) Vh).
@@ -15,6 +23,8 @@
 From Coq Require Import Reals List.
 Import ListNotations.
 From PV Require Import Base.Num Model.LieGroup Model.Controller Model.Align Proofs.LieGroup Proofs.Align.
+From PV Require Import Proofs.Align2 Proofs.Align3 Proofs.Align4 Proofs.Align5 Proofs.Align6 Proofs.Align7
+  Proofs.Align8 Proofs.Align9 Proofs.Align10 Proofs.Align11 Proofs.Align12 Proofs.Convert.
 Local Open Scope R_scope.
 #[local] Remove Hints NumQ NumZ : typeclass_instances.
 
@@ -186,6 +196,351 @@ Example C17_contract_satisfiable :
   sizes_ok wit_src wit_src = true /\ svd_ok (svdtf_M wit_src wit_src) wit_U wit_S wit_Vh.
 Proof. exact wit_contract. Qed.
 
+(* ======================================================================================== *)
+(* second round *)
+
+(* --- UNIQUENESS.  [noncollinear l]: l contains three points a, b, c with (b - a) x (c - a) <> 0.
+   Two rigid transforms that agree on such a cloud are equal ... *)
+Theorem C17_rigid_unique : forall (A B : mat3R) (t u : vec3R) (l : cloudR),
+  rot A -> rot B -> noncollinear l ->
+  (forall p, In p l -> rigid_apply A t p = rigid_apply B u p) -> A = B /\ t = u.
+Proof. exact rigid_unique. Qed.
+(* ... hence for exact correspondences of a non-collinear cloud svdtf computes THE true (R, t), for
+   every SVD answer meeting the contract ... *)
+Theorem C17_svdtf_exact_unique : forall (src tgt : cloudR) U S Vh A0 t0,
+  tgt = map (rigid_apply A0 t0) src -> noncollinear src -> rot A0 ->
+  svd_ok (svdtf_M src tgt) U S Vh ->
+  svdtf_mat src tgt U Vh = (A0, t0).
+Proof. exact svdtf_exact_unique. Qed.
+(* ... and AS CALLED returns the SE3 element with the true translation and a unit quaternion of the
+   true rotation *)
+Theorem C17_svdtf_call_exact_unique : forall (svd : mat3R -> mat3R * vec3R * mat3R) (src tgt : cloudR) A0 t0,
+  tgt = map (rigid_apply A0 t0) src -> noncollinear src -> rot A0 ->
+  svd_contract svd (svdtf_M src tgt) ->
+  exists T, svdtf svd src tgt = Some T /\ unitq (snd T) /\ fst T = t0 /\ SO3_matrix (snd T) = A0 /\
+            forall p, SE3_act T p = rigid_apply A0 t0 p.
+Proof. exact svdtf_call_exact_unique. Qed.
+(* for ANY cloud (collinear, duplicated points included) the element returned maps source onto target *)
+Theorem C17_svdtf_call_exact_recovery : forall (svd : mat3R -> mat3R * vec3R * mat3R) (src tgt : cloudR) A0 t0,
+  tgt = map (rigid_apply A0 t0) src -> src <> [] -> rot A0 ->
+  svd_contract svd (svdtf_M src tgt) ->
+  exists T, svdtf svd src tgt = Some T /\ unitq (snd T) /\ se3_cloud T src = tgt.
+Proof. exact svdtf_call_exact_recovery. Qed.
+(* the non-collinearity hypothesis is necessary: "the recovered transform is the true one" is
+   REFUTED for collinear clouds (two different rotations give the same correspondences) *)
+Theorem C17_collinear_unique_refuted :
+  exists (src : cloudR) (A B : mat3R) (t : vec3R),
+    (3 <= length src)%nat /\ rot A /\ rot B /\ A <> B /\
+    map (rigid_apply A t) src = map (rigid_apply B t) src.
+Proof. exact collinear_not_unique. Qed.
+(* svdstf: THE true (scale, rotation, translation) for exact similarity correspondences (scale > 0) *)
+Theorem C17_svdstf_exact_unique : forall (src tgt : cloudR) U D V c0 A0 t0,
+  tgt = map (sim_apply c0 A0 t0) src -> 0 < c0 -> rot A0 -> noncollinear src ->
+  svd_ok (svdstf_H src tgt) U D V ->
+  svdstf_mat true src tgt U D V = (c0, A0, t0).
+Proof. exact svdstf_exact_unique. Qed.
+Theorem C17_svdstf_call_exact_unique : forall (svd : mat3R -> mat3R * vec3R * mat3R) (src tgt : cloudR) c0 A0 t0,
+  tgt = map (sim_apply c0 A0 t0) src -> 1 / 100000 < c0 -> rot A0 -> noncollinear src ->
+  svd_contract svd (svdstf_H src tgt) ->
+  exists X, svdstf svd true src tgt = Some X /\ unitq (fst (snd X)) /\
+    snd (snd X) = c0 /\ fst X = t0 /\ SO3_matrix (fst (snd X)) = A0 /\
+    forall p, Sim3_act X p = sim_apply c0 A0 t0 p.
+Proof. exact svdstf_call_exact_unique. Qed.
+(* svdstf(with_scale=False) AS CALLED never raises (scale 1 is above mat2Sim3's threshold) and is
+   optimal over all rigid transforms *)
+Theorem C17_svdstf_noscale_returns : forall (svd : mat3R -> mat3R * vec3R * mat3R) (src tgt : cloudR),
+  sizes_ok src tgt = true -> svd_contract svd (svdstf_H src tgt) ->
+  exists X, svdstf svd false src tgt = Some X /\ unitq (fst (snd X)) /\ snd (snd X) = 1 /\
+    rot (SO3_matrix (fst (snd X))) /\
+    forall A t, rot A -> resid (Sim3_act X) src tgt <= resid (rigid_apply A t) src tgt.
+Proof. exact svdstf_noscale_returns. Qed.
+(* the hypotheses of the svdstf theorems are satisfiable, in the reflection branch (det(U V) = -1) *)
+Example C17_svdstf_hyps_satisfiable :
+  sizes_ok wit_src wit_src = true /\ svd_ok (svdstf_H wit_src wit_src) wit_U wit_D wit_Vh /\
+  0 < sumsq (centered wit_src) /\ mdet3 (mmul3 wit_U wit_Vh) = -1 /\
+  1 / 100000 < fst (fst (svdstf_mat true wit_src wit_src wit_U wit_D wit_Vh)).
+Proof. exact svdstf_hyps_satisfiable. Qed.
+Example C17_noncollinear_satisfiable : noncollinear wit_src.
+Proof. exact wit_noncollinear. Qed.
+
+(* --- ICP, THE WHOLE LOOP.  Notions (Proofs/Align3.v), all relative to the oracles svd, knn and the target:
+     idxs P            the knn index answer at cloud P;
+     cpdk P            sum over P of the squared distance to the closest target point (knn answer);
+     pass_ok P         both oracle calls of a pass at P meet their contracts
+                       (knn_ok P target (idxs P), svd_contract at the matched pairs);
+     icp_reach P Q     Q is obtained from P by finitely many passes of the loop body (icp_body);
+     icp_start init s  the cloud the loop starts from (init applied to the source, or the source).
+   Hypotheses are only about the oracle calls a run from the initial cloud can make. *)
+(* cpdk does not depend on how knn breaks ties *)
+Theorem C17_icp_cpd_knn_unique : forall (P tgt : cloudR) idx idx',
+  knn_ok P tgt idx -> knn_ok P tgt idx' -> cpd P tgt idx = cpd P tgt idx'.
+Proof. exact cpd_knn_unique. Qed.
+(* any number of passes: every cloud the loop can reach is not farther from the target *)
+Theorem C17_icp_reach_monotone : forall svd knn (target P : cloudR),
+  P <> [] -> (forall Q, icp_reach svd knn target P Q -> pass_ok svd knn target Q) ->
+  forall Q, icp_reach svd knn target P Q -> cpdk knn target Q <= cpdk knn target P.
+Proof. exact reach_monotone. Qed.
+(* the loop never raises, whatever the fuel, the stepper configuration and the stepper state *)
+Theorem C17_icp_loop_returns : forall svd knn (target P : cloudR),
+  P <> [] -> (forall Q, icp_reach svd knn target P Q -> pass_ok svd knn target Q) ->
+  forall fuel cfg st Q, icp_reach svd knn target P Q ->
+  exists tm st' errs, icp_loop svd knn fuel cfg st Q target = Some (tm, st', errs) /\ icp_reach svd knn target P tm.
+Proof. exact loop_returns. Qed.
+(* ICP.forward as a whole (init or not, any stepper): returns; the returned SE3 element applied to
+   the source is a cloud the loop reached; its sum / mean of squared closest-point distances is not
+   larger than that of the initial transform *)
+Theorem C17_icp_forward_monotone :
+  forall svd knn (target : cloudR) (cfg : rtb_cfg) (st0 : rtb_state) (init : option se3R) (source : cloudR),
+  source <> [] ->
+  (forall T, init = Some T -> unitq (snd T)) ->
+  (forall Q, icp_reach svd knn target (icp_start init source) Q -> pass_ok svd knn target Q) ->
+  (forall Q, icp_reach svd knn target (icp_start init source) Q -> svd_contract svd (svdtf_M source Q)) ->
+  exists T st errs,
+    icp_forward svd knn cfg st0 init source target = Some (T, st, errs) /\ unitq (snd T) /\
+    icp_reach svd knn target (icp_start init source) (se3_cloud T source) /\
+    cpdk knn target (se3_cloud T source) <= cpdk knn target (icp_start init source).
+Proof. exact icp_forward_monotone. Qed.
+Theorem C17_icp_forward_mean_monotone :
+  forall svd knn (target : cloudR) (cfg : rtb_cfg) (st0 : rtb_state) (init : option se3R) (source : cloudR),
+  source <> [] ->
+  (forall T, init = Some T -> unitq (snd T)) ->
+  (forall Q, icp_reach svd knn target (icp_start init source) Q -> pass_ok svd knn target Q) ->
+  (forall Q, icp_reach svd knn target (icp_start init source) Q -> svd_contract svd (svdtf_M source Q)) ->
+  exists T st errs,
+    icp_forward svd knn cfg st0 init source target = Some (T, st, errs) /\ unitq (snd T) /\
+    mean_cpd knn target (se3_cloud T source) <= mean_cpd knn target (icp_start init source).
+Proof. exact icp_forward_mean_monotone. Qed.
+
+(* --- ICP RECOVERY.  From a cloud whose closest-point matching is the correspondence of a rigid
+   motion, the loop (at least one pass: the stepper continues) ends exactly on the matched points *)
+Theorem C17_icp_loop_recovers : forall svd knn (target : cloudR) fuel cfg st (Q : cloudR) A1 t1,
+  Q <> [] -> rot A1 -> rtb_cont st = true ->
+  pass_ok svd knn target Q -> pass_ok svd knn target (map (rigid_apply A1 t1) Q) ->
+  gather3 target (idxs knn target Q) = map (rigid_apply A1 t1) Q ->
+  exists st' errs, icp_loop svd knn (S fuel) cfg st Q target = Some (map (rigid_apply A1 t1) Q, st', errs).
+Proof. exact icp_loop_recovers. Qed.
+(* ICP.forward: when the matching of the initial cloud is the true one the result maps every source
+   point onto its true image (distance 0), and for a non-collinear source it IS the true transform *)
+Theorem C17_icp_forward_recovers :
+  forall svd knn (target : cloudR) (cfg : rtb_cfg) (st0 : rtb_state) (init : option se3R) (source : cloudR) A0 t0,
+  source <> [] -> rot A0 ->
+  (forall T, init = Some T -> unitq (snd T)) ->
+  gather3 target (idxs knn target (icp_start init source)) = map (rigid_apply A0 t0) source ->
+  pass_ok svd knn target (icp_start init source) -> pass_ok svd knn target (map (rigid_apply A0 t0) source) ->
+  svd_contract svd (svdtf_M source (map (rigid_apply A0 t0) source)) ->
+  exists T st errs,
+    icp_forward svd knn cfg st0 init source target = Some (T, st, errs) /\ unitq (snd T) /\
+    se3_cloud T source = map (rigid_apply A0 t0) source /\
+    cpdk knn target (se3_cloud T source) = 0 /\
+    (noncollinear source -> fst T = t0 /\ SO3_matrix (snd T) = A0).
+Proof. exact icp_forward_recovers. Qed.
+(* an explicit basin (a geometric condition, not a condition on the knn answer): target = rigid image
+   of the source, every initial point displaced from its own target point by less than half the
+   distance from that target point to any other one:  4 |T_i - P_i|^2 < |T_j - T_i|^2 *)
+Theorem C17_icp_forward_recovers_basin :
+  forall svd knn (cfg : rtb_cfg) (st0 : rtb_state) (init : option se3R) (source : cloudR) A0 t0,
+  let target := map (rigid_apply A0 t0) source in
+  source <> [] -> rot A0 ->
+  (forall T, init = Some T -> unitq (snd T)) ->
+  within_half_separation (icp_start init source) target ->
+  pass_ok svd knn target (icp_start init source) -> pass_ok svd knn target target ->
+  svd_contract svd (svdtf_M source target) ->
+  exists T st errs,
+    icp_forward svd knn cfg st0 init source target = Some (T, st, errs) /\ unitq (snd T) /\
+    se3_cloud T source = target /\
+    cpdk knn target (se3_cloud T source) = 0 /\
+    (noncollinear source -> fst T = t0 /\ SO3_matrix (snd T) = A0).
+Proof. exact icp_forward_recovers_basin. Qed.
+(* inside the basin the knn answer is forced (every answer meeting the contract is the identity matching) *)
+Theorem C17_icp_knn_forced : forall (P T : cloudR) idx,
+  within_half_separation P T -> knn_ok P T idx -> gather3 T idx = T.
+Proof. intros P T idx H. exact (knn_forced P T idx (half_sep_own_closest P T H)). Qed.
+
+(* --- satisfiability of the ICP hypotheses: a reference knn meets the contract on EVERY query cloud;
+   a concrete run (3 non-collinear points, target = source + (1/10, 0, 0), reference knn, constant SVD
+   oracle) satisfies every hypothesis of the theorems above, including the basin condition *)
+Theorem C17_knn_contract_satisfiable : forall P T : cloudR, T <> [] -> knn_ok P T (map snd (knn_ref P T)).
+Proof. exact knn_ref_ok. Qed.
+Example C17_icp_example_monotone :
+  ex_src <> [] /\
+  (forall Q, icp_reach ex_svd knn_ref ex_tgt (icp_start None ex_src) Q -> pass_ok ex_svd knn_ref ex_tgt Q) /\
+  (forall Q, icp_reach ex_svd knn_ref ex_tgt (icp_start None ex_src) Q -> svd_contract ex_svd (svdtf_M ex_src Q)).
+Proof. exact icp_example_monotone. Qed.
+Example C17_icp_example_recovers :
+  ex_src <> [] /\ rot mid3 /\ noncollinear ex_src /\
+  gather3 ex_tgt (idxs knn_ref ex_tgt (icp_start None ex_src)) = map (rigid_apply mid3 ex_shift) ex_src /\
+  pass_ok ex_svd knn_ref ex_tgt (icp_start None ex_src) /\
+  pass_ok ex_svd knn_ref ex_tgt (map (rigid_apply mid3 ex_shift) ex_src) /\
+  svd_contract ex_svd (svdtf_M ex_src (map (rigid_apply mid3 ex_shift) ex_src)).
+Proof. exact icp_example_recovers. Qed.
+Example C17_icp_basin_satisfiable : within_half_separation ex_src ex_tgt.
+Proof. exact ex_half_sep. Qed.
+
+(* --- BATCHED inputs.  [icp_loop_batch] (Proofs/Align6.v) is ICP.forward's loop on a batch: all items
+   in lockstep under ONE stepper fed with the vector of per-item errors; on a batch of one item it is
+   the model's loop *)
+Theorem C17_icp_loop_batch_single : forall svd knn fuel cfg st (P tg : cloudR),
+  icp_loop_batch svd knn fuel cfg st [P] [tg] =
+  match icp_loop svd knn fuel cfg st P tg with
+  | Some (tm, st', es) => Some ([tm], st', map (fun e => [e]) es)
+  | None => None
+  end.
+Proof. exact icp_loop_batch_single. Qed.
+(* the lockstep loop never raises and EVERY item ends not farther from its target than it started *)
+Theorem C17_icp_loop_batch_monotone : forall svd knn fuel cfg st (items : list (cloudR * cloudR)),
+  Forall (item_ok svd knn) items ->
+  exists tms st' es, icp_loop_batch svd knn fuel cfg st (map fst items) (map snd items) = Some (tms, st', es) /\
+    Forall2 (fun it tm => icp_reach svd knn (snd it) (fst it) tm /\
+                          cpdk knn (snd it) tm <= cpdk knn (snd it) (fst it)) items tms.
+Proof. exact icp_loop_batch_monotone. Qed.
+(* svdtf on a batch: every item is returned, is a valid SE3 element and has minimal residual *)
+Theorem C17_svdtf_batch_optimal : forall svd (items : list (cloudR * cloudR)),
+  Forall (fun it => sizes_ok (fst it) (snd it) = true /\ svd_contract svd (svdtf_M (fst it) (snd it))) items ->
+  Forall2 (fun it o => exists T, o = Some T /\ unitq (snd T) /\
+                       forall A t, rot A -> resid (SE3_act T) (fst it) (snd it) <= resid (rigid_apply A t) (fst it) (snd it))
+          items (svdtf_batch svd (map fst items) (map snd items)).
+Proof. exact svdtf_batch_optimal. Qed.
+
+(* --- EPnP over all points.  [alpha_ok cw a p]: contract of _compute_alpha's linear solve for one point
+   (weights sum to one and a @ C_w = p); [epnp_M]: the whole 2N x 12 matrix (u-row, v-row per point);
+   [ctrl_move A t cw]: the camera-frame control points.  For exact projections (depth <> 0) of ANY
+   number of points under ANY affine camera motion, every multiple of the true camera-frame control
+   points is in the null space of M, i.e. an eigenvector of M^T M for the eigenvalue 0 *)
+Theorem C17_epnp_system_nullspace : forall (fu fv u0 v0 : R) (A : mat3R) (t : vec3R) (cw : ctrlR) alphas points,
+  Forall2 (alpha_ok cw) alphas points ->
+  Forall (fun p => vz (rigid_apply A t p) <> 0) points ->
+  forall k, in_null (epnp_M fu fv u0 v0 alphas (map (fun p => project fu fv u0 v0 (rigid_apply A t p)) points))
+                    (map (Rmult k) (ctrl_flat (ctrl_move A t cw))).
+Proof. exact epnp_system_nullspace. Qed.
+Theorem C17_epnp_gram_eigen0 : forall (fu fv u0 v0 : R) (A : mat3R) (t : vec3R) (cw : ctrlR) alphas points k,
+  Forall2 (alpha_ok cw) alphas points -> Forall (fun p => vz (rigid_apply A t p) <> 0) points ->
+  gram_apply (epnp_M fu fv u0 v0 alphas (map (fun p => project fu fv u0 v0 (rigid_apply A t p)) points))
+             (map (Rmult k) (ctrl_flat (ctrl_move A t cw))) = repeat 0 12.
+Proof. exact epnp_gram_eigen0. Qed.
+(* _compute_solution on the true control points: transp = alpha @ bases are the camera-frame points
+   and svdtf(points, transp) returns the true pose *)
+Theorem C17_epnp_pose_from_true_controls :
+  forall (svd : mat3R -> mat3R * vec3R * mat3R) (A : mat3R) (t : vec3R) (cw : ctrlR) alphas points,
+  Forall2 (alpha_ok cw) alphas points -> points <> [] -> rot A ->
+  svd_contract svd (svdtf_M points (map (fun a => ctrl_comb a (ctrl_move A t cw)) alphas)) ->
+  exists T, svdtf svd points (map (fun a => ctrl_comb a (ctrl_move A t cw)) alphas) = Some T /\ unitq (snd T) /\
+    se3_cloud T points = map (rigid_apply A t) points /\
+    (noncollinear points -> fst T = t /\ SO3_matrix (snd T) = A).
+Proof. exact epnp_pose_from_true_controls. Qed.
+(* _compute_scale (transcribed in Proofs/Align7.v, not tied): from ANY non-zero multiple k of the true
+   control points -- the eigenvector comes normalised with an arbitrary sign -- points in front of the
+   camera, not all equal: the scaled points are the true camera-frame points, the scale is 1/k *)
+Theorem C17_epnp_compute_scale_true : forall (A : mat3R) (t : vec3R) (cw : ctrlR) alphas points (k : R),
+  Forall2 (alpha_ok cw) alphas points -> rot A -> k <> 0 ->
+  Forall (fun p => 0 < vz (rigid_apply A t p)) points ->
+  0 < sumsq (centered points) ->
+  snd (fst (epnp_compute_scale alphas (ctrl_scale k (ctrl_move A t cw)) points)) = map (rigid_apply A t) points /\
+  snd (epnp_compute_scale alphas (ctrl_scale k (ctrl_move A t cw)) points) = 1 / k.
+Proof. exact epnp_compute_scale_true. Qed.
+(* ... and svdtf on them returns the true pose: EPnP's candidate built from a one-dimensional null
+   space is exact *)
+Theorem C17_epnp_solution_true_pose :
+  forall (svd : mat3R -> mat3R * vec3R * mat3R) (A : mat3R) (t : vec3R) (cw : ctrlR) alphas points (k : R),
+  Forall2 (alpha_ok cw) alphas points -> rot A -> k <> 0 ->
+  Forall (fun p => 0 < vz (rigid_apply A t p)) points ->
+  noncollinear points ->
+  let transp := snd (fst (epnp_compute_scale alphas (ctrl_scale k (ctrl_move A t cw)) points)) in
+  svd_contract svd (svdtf_M points transp) ->
+  exists T, svdtf svd points transp = Some T /\ unitq (snd T) /\ fst T = t /\ SO3_matrix (snd T) = A.
+Proof. exact epnp_solution_true_pose. Qed.
+(* the EPnP hypotheses are jointly satisfiable (negative k: the sign fix is exercised) *)
+Example C17_epnp_hyps_satisfiable :
+  Forall2 (alpha_ok ex_cw) (map ex_alpha wit_src) wit_src /\ rot mid3 /\ -1 / 3 <> 0 /\
+  Forall (fun p => 0 < vz (rigid_apply mid3 ex_t p)) wit_src /\ noncollinear wit_src /\
+  svd_contract ex_svd (svdtf_M wit_src
+     (snd (fst (epnp_compute_scale (map ex_alpha wit_src) (ctrl_scale (-1 / 3) (ctrl_move mid3 ex_t ex_cw)) wit_src)))).
+Proof. exact epnp_hyps_satisfiable. Qed.
+
+(* --- the basin for an ARBITRARY target: the target contains the rigid image of the source in any
+   order (idx0 names the target point of every source point), possibly with extra points and with
+   duplicated points; condition: 4 |T_idx0(k) - P_k|^2 < |T_j - T_idx0(k)|^2 for every target point
+   T_j that is a different point *)
+Theorem C17_icp_forward_recovers_basin_matched :
+  forall svd knn (target : cloudR) (idx0 : list nat)
+         (cfg : rtb_cfg) (st0 : rtb_state) (init : option se3R) (source : cloudR) A0 t0,
+  source <> [] -> rot A0 ->
+  (forall T, init = Some T -> unitq (snd T)) ->
+  gather3 target idx0 = map (rigid_apply A0 t0) source ->
+  within_half_separation_via (icp_start init source) target idx0 ->
+  pass_ok svd knn target (icp_start init source) -> pass_ok svd knn target (map (rigid_apply A0 t0) source) ->
+  svd_contract svd (svdtf_M source (map (rigid_apply A0 t0) source)) ->
+  exists T st errs,
+    icp_forward svd knn cfg st0 init source target = Some (T, st, errs) /\ unitq (snd T) /\
+    se3_cloud T source = map (rigid_apply A0 t0) source /\
+    cpdk knn target (se3_cloud T source) = 0 /\
+    (noncollinear source -> fst T = t0 /\ SO3_matrix (snd T) = A0).
+Proof. exact icp_forward_recovers_basin_matched. Qed.
+(* satisfiable on a permuted target with an extra far point *)
+Example C17_icp_example_matched :
+  ex_src <> [] /\ rot mid3 /\ noncollinear ex_src /\
+  gather3 ex_tgt2 ex_idx0 = map (rigid_apply mid3 ex_shift) ex_src /\
+  within_half_separation_via (icp_start None ex_src) ex_tgt2 ex_idx0 /\
+  pass_ok ex_svd knn_ref ex_tgt2 (icp_start None ex_src) /\
+  pass_ok ex_svd knn_ref ex_tgt2 (map (rigid_apply mid3 ex_shift) ex_src) /\
+  svd_contract ex_svd (svdtf_M ex_src (map (rigid_apply mid3 ex_shift) ex_src)).
+Proof. exact icp_example_matched. Qed.
+
+(* --- optimality stated on the element the call returns *)
+Theorem C17_svdtf_call_optimal : forall (svd : mat3R -> mat3R * vec3R * mat3R) (src tgt : cloudR),
+  sizes_ok src tgt = true -> svd_contract svd (svdtf_M src tgt) ->
+  exists T, svdtf svd src tgt = Some T /\ unitq (snd T) /\ rot (SO3_matrix (snd T)) /\
+    forall A t, rot A -> resid (SE3_act T) src tgt <= resid (rigid_apply A t) src tgt.
+Proof. exact svdtf_call_optimal. Qed.
+Theorem C17_svdstf_call_optimal : forall (svd : mat3R -> mat3R * vec3R * mat3R) (src tgt : cloudR),
+  sizes_ok src tgt = true -> svd_contract svd (svdstf_H src tgt) -> 0 < sumsq (centered src) ->
+  (let '(U, D, V) := svd (svdstf_H src tgt) in 1 / 100000 < fst (fst (svdstf_mat true src tgt U D V))) ->
+  exists X, svdstf svd true src tgt = Some X /\ unitq (fst (snd X)) /\ 0 < snd (snd X) /\
+    forall c A t, 0 <= c -> rot A -> resid (Sim3_act X) src tgt <= resid (sim_apply c A t) src tgt.
+Proof. exact svdstf_call_optimal. Qed.
+(* svdtf(points, T0 @ points) returns T0: same translation, same quaternion up to sign
+   (qsame q q' := q' = q \/ q' = - q, Proofs/Convert.v) *)
+Theorem C17_svdtf_call_returns_T0 : forall (svd : mat3R -> mat3R * vec3R * mat3R) (T0 : se3R) (src : cloudR),
+  unitq (snd T0) -> noncollinear src -> svd_contract svd (svdtf_M src (se3_cloud T0 src)) ->
+  exists T, svdtf svd src (se3_cloud T0 src) = Some T /\ fst T = fst T0 /\ qsame (snd T0) (snd T).
+Proof. exact svdtf_call_returns_T0. Qed.
+
+(* --- EPnP, remaining modelled facts: the residual of the refinement objective (BetaObjective:
+   control-point distances in the world minus in the camera frame) is zero at the exact candidate;
+   the solve contract of _compute_alpha has exactly one solution when the control points are
+   affinely independent, which the control points of _svd_basis are when all three singular values
+   are positive (non-coplanar points) *)
+Theorem C17_epnp_refine_residual_zero : forall (A : mat3R) (t : vec3R) (cw : ctrlR), rot A ->
+  beta_objective cw (ctrl_move A t cw) = repeat 0 6.
+Proof. exact epnp_refine_residual_zero. Qed.
+Theorem C17_epnp_alpha_unique : forall (cw : ctrlR) (a a' : vec4R) (p : vec3R),
+  ctrl_det cw <> 0 -> alpha_ok cw a p -> alpha_ok cw a' p -> a = a'.
+Proof. exact alpha_unique. Qed.
+Theorem C17_epnp_alpha_exists : forall (cw : ctrlR) (p : vec3R), ctrl_det cw <> 0 -> exists a, alpha_ok cw a p.
+Proof. exact alpha_exists. Qed.
+Theorem C17_epnp_svd_basis_independent : forall (center s : vec3R) (Vh : mat3R),
+  orth Vh -> 0 < vx s -> 0 < vy s -> 0 < vz s -> ctrl_det (svd_basis center s Vh) <> 0.
+Proof. exact svd_basis_independent. Qed.
+
+(* --- ICP.forward under GLOBAL contracts (an SVD routine and a knn routine that meet their contracts
+   on every input): the reader-friendly corollary of C17_icp_forward_mean_monotone *)
+Theorem C17_icp_forward_monotone_global :
+  forall svd knn (target : cloudR) (cfg : rtb_cfg) (st0 : rtb_state) (init : option se3R) (source : cloudR),
+  source <> [] ->
+  (forall T, init = Some T -> unitq (snd T)) ->
+  (forall M, svd_contract svd M) ->
+  (forall P, knn_ok P target (map snd (knn P target))) ->
+  exists T st errs,
+    icp_forward svd knn cfg st0 init source target = Some (T, st, errs) /\ unitq (snd T) /\
+    mean_cpd knn target (se3_cloud T source) <= mean_cpd knn target (icp_start init source).
+Proof. exact icp_forward_monotone_global. Qed.
+(* satisfiability: batch items; svdtf(points, T0 @ points) with T0 a translation *)
+Example C17_batch_items_satisfiable : Forall (item_ok ex_svd knn_ref) [(ex_src, ex_tgt); (ex_tgt, ex_tgt)].
+Proof. exact batch_items_satisfiable. Qed.
+Example C17_returns_T0_satisfiable :
+  let T0 : se3R := (ex_shift, SO3_id) in
+  unitq (snd T0) /\ noncollinear ex_src /\ svd_contract ex_svd (svdtf_M ex_src (se3_cloud T0 ex_src)).
+Proof. exact returns_T0_satisfiable. Qed.
+
 Print Assumptions C17_svdtf_proper. Print Assumptions C17_rotation_trace_identity.
 Print Assumptions C17_rotation_trace_ge_m1. Print Assumptions C17_kabsch_trace_optimal.
 Print Assumptions C17_kabsch_optimal. Print Assumptions C17_svdtf_optimal.
@@ -199,3 +554,47 @@ Print Assumptions C17_mat2SO3_of_rotation. Print Assumptions C17_svdtf_returns_p
 Print Assumptions C17_svdtf_old_call_refuted. Print Assumptions C17_svdstf_returns_similarity.
 Print Assumptions C17_icp_pass_monotone.
 Print Assumptions C17_contract_satisfiable.
+Print Assumptions C17_rigid_unique.
+Print Assumptions C17_svdtf_exact_unique.
+Print Assumptions C17_svdtf_call_exact_unique.
+Print Assumptions C17_svdtf_call_exact_recovery.
+Print Assumptions C17_collinear_unique_refuted.
+Print Assumptions C17_svdstf_exact_unique.
+Print Assumptions C17_svdstf_call_exact_unique.
+Print Assumptions C17_svdstf_noscale_returns.
+Print Assumptions C17_svdstf_hyps_satisfiable.
+Print Assumptions C17_noncollinear_satisfiable.
+Print Assumptions C17_icp_cpd_knn_unique.
+Print Assumptions C17_icp_reach_monotone.
+Print Assumptions C17_icp_loop_returns.
+Print Assumptions C17_icp_forward_monotone.
+Print Assumptions C17_icp_forward_mean_monotone.
+Print Assumptions C17_icp_loop_recovers.
+Print Assumptions C17_icp_forward_recovers.
+Print Assumptions C17_icp_forward_recovers_basin.
+Print Assumptions C17_icp_knn_forced.
+Print Assumptions C17_knn_contract_satisfiable.
+Print Assumptions C17_icp_example_monotone.
+Print Assumptions C17_icp_example_recovers.
+Print Assumptions C17_icp_basin_satisfiable.
+Print Assumptions C17_icp_loop_batch_single.
+Print Assumptions C17_icp_loop_batch_monotone.
+Print Assumptions C17_svdtf_batch_optimal.
+Print Assumptions C17_epnp_system_nullspace.
+Print Assumptions C17_epnp_gram_eigen0.
+Print Assumptions C17_epnp_pose_from_true_controls.
+Print Assumptions C17_epnp_compute_scale_true.
+Print Assumptions C17_epnp_solution_true_pose.
+Print Assumptions C17_epnp_hyps_satisfiable.
+Print Assumptions C17_icp_forward_recovers_basin_matched.
+Print Assumptions C17_icp_example_matched.
+Print Assumptions C17_svdtf_call_optimal.
+Print Assumptions C17_svdstf_call_optimal.
+Print Assumptions C17_svdtf_call_returns_T0.
+Print Assumptions C17_epnp_refine_residual_zero.
+Print Assumptions C17_epnp_alpha_unique.
+Print Assumptions C17_epnp_alpha_exists.
+Print Assumptions C17_epnp_svd_basis_independent.
+Print Assumptions C17_icp_forward_monotone_global.
+Print Assumptions C17_batch_items_satisfiable.
+Print Assumptions C17_returns_T0_satisfiable.
